@@ -767,10 +767,17 @@ pub fn state_strategy() -> impl Strategy<Value = State> {
         (prop_oneof![3 => Just(false), 1 => Just(true)], prop_oneof![3 => Just(false), 1 => Just(true)], any::<u16>(), any::<u32>()),
         prop_oneof![1 => Just(None), 1 => (any::<u8>(), proptest::array::uniform16(any::<u8>())).prop_map(|(c, r)| Some((c & 0x0F, r)))],
         prop_oneof![1 => Just(None), 1 => any::<bool>().prop_map(Some)],
-        0x8010u16..0xBD00,
+        (
+            0x8010u16..0xBD00,
+            // SP at a 16 KiB page boundary: the 48K SNA keeps PC in the two bytes below SP
+            prop_oneof![4 => Just(None), 1 => prop_oneof![Just(0x4004u16), Just(0x8000), Just(0x8001), Just(0x8002), Just(0xC000), Just(0xC001), Just(0xC002), Just(0xFFFF)].prop_map(Some)],
+        ),
     )
-        .prop_map(|(machine, mut regs, border, latch, ram_seed, edits, (halted, ei_last, memptr, cycles), ay, mouse, pc)| {
+        .prop_map(|(machine, mut regs, border, latch, ram_seed, edits, (halted, ei_last, memptr, cycles), ay, mouse, (pc, sp_edge))| {
             regs.pc = pc;
+            if let Some(sp) = sp_edge {
+                regs.sp = sp;
+            }
             if regs.sp.wrapping_sub(pc) < 48 || pc.wrapping_sub(regs.sp) < 8 {
                 regs.sp = pc.wrapping_add(0x180);
             }
